@@ -9,22 +9,24 @@ import (
 // property's generator); run(plan) is a pure function of plan + code. Replay
 // files are Plans (plus the violation they produced).
 type Plan struct {
-	Prop      string           `json:"prop"`
-	Seed      uint64           `json:"seed"`
-	Sub       string           `json:"sub,omitempty"` // sub-batch label: "nofault", "fault", grid cell id...
-	Stack     StackCfg         `json:"stack"`
-	Endpoints []EndpointCfg    `json:"endpoints"`
-	Ops       []ClientOp       `json:"ops"`
-	Env       []EnvEvent       `json:"env,omitempty"`
-	Net       NetCfg           `json:"net"`
-	Yields    map[string]int64 `json:"yields,omitempty"` // site -> max ns
-	Panics    map[string]int   `json:"panics,omitempty"` // fault point -> permille of calls that panic (injected by the simulator)
-	PoolFresh int              `json:"pool_fresh_permille"`
-	OrderSalt uint64           `json:"order_salt"`
-	Deadline  time.Duration    `json:"deadline"`          // absolute simulated time
-	Settle    time.Duration    `json:"settle"`            // extra simulated time after the last op completes
-	RunFor    time.Duration    `json:"run_for,omitempty"` // the workload phase lasts at least this long (histories without client ops)
-	Extra     map[string]any   `json:"extra,omitempty"`
+	Prop              string           `json:"prop"`
+	Seed              uint64           `json:"seed"`
+	Sub               string           `json:"sub,omitempty"` // sub-batch label: "nofault", "fault", grid cell id...
+	Stack             StackCfg         `json:"stack"`
+	Endpoints         []EndpointCfg    `json:"endpoints"`
+	Ops               []ClientOp       `json:"ops"`
+	Env               []EnvEvent       `json:"env,omitempty"`
+	Net               NetCfg           `json:"net"`
+	Yields            map[string]int64 `json:"yields,omitempty"`              // site -> max ns
+	StmtYieldPermille int              `json:"stmt_yield_permille,omitempty"` // fraction of the instrumented statement sites that yield in this run
+	StmtYieldMaxNs    int64            `json:"stmt_yield_max_ns,omitempty"`   // their delay is H(seed, site) mod this
+	Panics            map[string]int   `json:"panics,omitempty"`              // fault point -> permille of calls that panic (injected by the simulator)
+	PoolFresh         int              `json:"pool_fresh_permille"`
+	OrderSalt         uint64           `json:"order_salt"`
+	Deadline          time.Duration    `json:"deadline"`          // absolute simulated time
+	Settle            time.Duration    `json:"settle"`            // extra simulated time after the last op completes
+	RunFor            time.Duration    `json:"run_for,omitempty"` // the workload phase lasts at least this long (histories without client ops)
+	Extra             map[string]any   `json:"extra,omitempty"`
 }
 
 func (p *Plan) Clone() *Plan {
